@@ -193,7 +193,67 @@ def _alpha(fn):
             return node
     for st in fn.body:
         R().visit(st)
+    fn._locals_in_order = list(order)      # pylint: disable=protected-access
     return fn
+
+
+def locals_in_order(fn):
+    """the local variables of a function in the order _alpha numbers them"""
+    return _alpha(fn)._locals_in_order     # pylint: disable=protected-access
+
+
+LOCALS_FILE = os.path.join(os.path.dirname(os.path.abspath(__file__)), 'shape_locals.json')
+_LOCALS = [None]
+
+
+def restore_locals(rel, text):
+    """Source text of `rel` as the translators should see it. harness/shape_locals.json records, for every function of
+    the files the translators read, the names of its local variables in order of first occurrence (tools/mkshape.py, when
+    the models were in line with the source). When a function of the current tree has the same NUMBER of locals but other
+    names - a consistent renaming, or something the shape tie will flag anyway - the recorded names are put back, so that
+    the name-based extraction of every translator sees what it was written for. On a tree whose locals are named as
+    recorded (the unchanged tree) the text is returned untouched."""
+    import json
+    if _LOCALS[0] is None:
+        try:
+            with open(LOCALS_FILE) as f:
+                _LOCALS[0] = json.load(f)
+        except IOError:
+            _LOCALS[0] = {}
+    rec = _LOCALS[0].get(rel)
+    if not rec:
+        return text
+    try:
+        tree = ast.parse(text)
+    except SyntaxError:
+        return text
+    changed = False
+    for qual, fn in functions_of(tree).items():
+        want = rec.get(qual)
+        if want is None:
+            continue
+        have = locals_in_order(fn)
+        if have == want or len(have) != len(want) or len(set(want)) != len(want):
+            continue
+        mapping = dict(zip(have, want))
+        taken = {n.id for n in ast.walk(fn) if isinstance(n, ast.Name)} - set(have)
+        if any(v in taken for k, v in mapping.items() if k != v):
+            continue                      # a recorded name is now used for something else: leave it to the shape tie
+
+        class Back(ast.NodeTransformer):
+            def visit_Name(self, node):
+                node.id = mapping.get(node.id, node.id)
+                return node
+
+            def visit_ExceptHandler(self, node):
+                if node.name:
+                    node.name = mapping.get(node.name, node.name)
+                self.generic_visit(node)
+                return node
+        for st in fn.body:
+            Back().visit(st)
+        changed = True
+    return ast.unparse(tree) if changed else text
 
 
 def functions_of(tree):
